@@ -7,6 +7,7 @@
 package main
 
 import (
+	"reflect"
 	"fmt"
 	"os"
 	"path/filepath"
@@ -81,7 +82,9 @@ func (w *world) newCache(list []string) *cdi.Cache {
 	for _, d := range list {
 		paths = append(paths, filepath.Join(w.root, d))
 	}
-	c, _ := cdi.NewCache(cdi.WithSpecDirs(paths...), cdi.WithAutoRefresh(false))
+	opt, reuse := dirmodel.Dirs(paths...)
+	c, _ := cdi.NewCache(opt, cdi.WithAutoRefresh(false))
+	reuse() // the caller's slice of directories is used for something else from here on
 	return c
 }
 
@@ -149,7 +152,14 @@ func sortedKeys(m map[string]bool) []string {
 }
 
 // verify checks one cache against the model in one state.
-func verify(r *hx.Run, phase string, w *world, list []string, t *dirmodel.Tree, c *cdi.Cache, step string, prev *dirmodel.Tree) bool {
+func verify(r *hx.Run, phase string, w *world, list []string, t *dirmodel.Tree, c *cdi.Cache, step string, prev *dirmodel.Tree) (ok bool) {
+	defer func() {
+		if p := recover(); p != nil {
+			cs := Case{Phase: phase, DirList: list, State: stateMap(t), Step: step}
+			r.Fail(&hx.Failure{Sig: "panic-in-a-query", Msg: fmt.Sprintf("%s: a query panicked (the caller had overwritten the slices and maps of earlier answers): %v", phase, p), Case: cs, Rank: int64(len(t.Key()))})
+			ok = false
+		}
+	}()
 	want := dirmodel.Resolve(list, t, w.abs)
 	obs := dirmodel.Observe(c)
 	mk := func() Case {
@@ -161,6 +171,16 @@ func verify(r *hx.Run, phase string, w *world, list []string, t *dirmodel.Tree, 
 	}
 	if ok, what, detail := obs.Check(want); !ok {
 		r.Fail(&hx.Failure{Sig: explain(what, list, t, obs, want), Msg: phase + ": " + detail, Case: mk(), Expected: want, Actual: obs, Rank: int64(len(t.Key()))})
+		return false
+	}
+	// the caller owns what it was handed: Observe overwrote / cleared every slice and map it got, and
+	// AliasProbe does so once more per listing; the cache must keep answering as before
+	if api, detail := dirmodel.AliasProbe(c); api != "" {
+		r.Fail(&hx.Failure{Sig: "answer-follows-the-callers-modification:" + api, Msg: phase + ": " + detail, Case: mk(), Rank: int64(len(t.Key()))})
+		return false
+	}
+	if again := dirmodel.Observe(c); !again.SameAnswers(obs) || !reflect.DeepEqual(again.ErrPaths, obs.ErrPaths) {
+		r.Fail(&hx.Failure{Sig: "answers-change-after-the-caller-modified-earlier-answers", Msg: phase + ": a second round of queries (no refresh, nothing changed) differs from the first after the caller overwrote the slices and maps it had been handed", Case: mk(), Expected: obs, Actual: again, Rank: int64(len(t.Key()))})
 		return false
 	}
 	// devices that must not resolve
